@@ -222,6 +222,26 @@ Fixpoint cs_run (s : cstate) (ops : list regop) (k : nat) : cstate * option (nat
                  end
   end.
 
+(* a history in which the caller recovered from refused calls and went on with the container: an operation flagged
+   [true] is one the implementation refused.  The model checks that it HAD to be refused (else it counts an anomaly)
+   and leaves the state as it is; the other operations run as in [cs_run]. *)
+Fixpoint cs_run_skip (s : cstate) (ops : list (bool * regop)) (k anom : nat) : cstate * option (nat * failure) * nat :=
+  match ops with
+  | [] => (s, None, anom)
+  | (true, o) :: rest =>
+      match cs_step s o with
+      | inr _ => cs_run_skip s rest (S k) anom
+      | inl _ => cs_run_skip s rest (S k) (S anom)
+      end
+  | (false, o) :: rest =>
+      match cs_step s o with
+      | inl s' => cs_run_skip s' rest (S k) anom
+      | inr f => (s, Some (k, f), anom)
+      end
+  end.
+(* the operations of such a history that were carried out *)
+Definition accepted_ops (ops : list (bool * regop)) : list regop := map snd (filter (fun x => negb (fst x)) ops).
+
 (* the route table a registration state stands for *)
 Definition cs_table (rt : router) (s : cstate) : table :=
   {| t_router := rt;
